@@ -80,6 +80,25 @@ func findPrefixLoops(fn *ssa.Function) []prefixLoop {
 					if op == token.LSS {
 						m = k - 1
 					}
+					// a test made after the decoder call of the same iteration has already tried this length
+					if in.Block().Dominates(bo.Block()) && in.Block() != bo.Block() || (in.Block() == bo.Block() && instrIndex(in) < instrIndex(bo)) {
+						m++
+					}
+					// only a comparison that can leave the loop limits the prefixes tried
+					leaves := false
+					body := loopsOf(fn)[phi.Block()]
+					for _, rr := range referrers(bo) {
+						if iff, ok := rr.(*ssa.If); ok {
+							for _, sc := range iff.Block().Succs {
+								if body != nil && !body[sc] {
+									leaves = true
+								}
+							}
+						}
+					}
+					if !leaves {
+						continue
+					}
 					if pl.capCmp == "" || m < pl.capMax {
 						pl.capMax = m
 						pl.capCmp = fmt.Sprintf("l %s %d", op.String(), k)
@@ -125,6 +144,8 @@ func checkC11(c *Ctx) {
 	c.Rule("C11-R2", "bytes consumed after a decode = the decoder's nSrc result")
 	c.Rule("C11-R3", "bracketed paste: enable and disable strings and both bracket keys are set together; the matcher maps them to paste start/end events")
 	c.Rule("C11-R4", "the collect loop calls the rune and focus parsers unconditionally; the focus parser maps I/O to in/out")
+	c.Rule("C11-R7", "a prefix for which the decoder could only substitute U+FFFD is not consumed as a character while a longer prefix (up to the longest sequence, 4 bytes) has not been tried: multi-byte legacy charsets answer a lone lead byte that way")
+	c.Expect("C11-R7", 1)
 	c.Rule("C11-R5", "an input chunk queued for the parser goroutine owns its backing array (allocated per chunk)")
 	c.Rule("C11-R6", "raw input bytes are interpreted only by the locale's decoder: no unicode/utf8 function is applied to the undecoded input (the locale may be a legacy charset)")
 	c.Expect("C11-R5", 1)
@@ -146,6 +167,7 @@ func checkC11(c *Ctx) {
 	checkPrefixLoop(c, p, pr, "C11-R1")
 	checkChunkOwnership(c, p, "C11-R5")
 	checkRawInputNotUTF8(c, p, pr, "C11-R6")
+	checkSubstitutedPrefix(c, p, pr, "C11-R7")
 	// R2: the consumption loop counts down from nSrc
 	for _, pl := range findPrefixLoops(pr) {
 		ok := false
@@ -340,4 +362,127 @@ func checkRawInputNotUTF8(c *Ctx, p *Prog, fn *ssa.Function, rule string) {
 		}
 	})
 	c.Check(bad == "", rule, fn.Name()+":utf8-only-on-decoder-output", p.pos(fn.Pos()), fmt.Sprintf("%d unicode/utf8 call(s), none on the raw input %s", n, bad))
+}
+
+// checkSubstitutedPrefix: see rule C11-R7.  The decoder is called with atEOF
+// set on every prefix; told that the input ends after a lead byte, the
+// multi-byte decoders of x/text emit U+FFFD and report the byte consumed.
+// Treating that as a decoded character loses the character.
+func checkSubstitutedPrefix(c *Ctx, p *Prog, fn *ssa.Function, rule string) {
+	loops := findPrefixLoops(fn)
+	if len(loops) == 0 {
+		c.Undecided(rule, fn.Name()+":substituted-prefix", p.pos(fn.Pos()), "no prefix loop")
+		return
+	}
+	// the prefix length variable
+	var lphi *ssa.Phi
+	if cc := callCommon(loops[0].call); cc != nil {
+		if sl, ok := cc.Args[1].(*ssa.Slice); ok {
+			lphi, _ = sl.High.(*ssa.Phi)
+		}
+	}
+	const runeError = 0xFFFD
+	var tests []*ssa.BinOp
+	eachInstr(fn, func(in ssa.Instruction) {
+		bo, ok := in.(*ssa.BinOp)
+		if !ok || (bo.Op != token.EQL && bo.Op != token.NEQ) {
+			return
+		}
+		if k, ok := constInt(bo.Y); ok && k == runeError {
+			tests = append(tests, bo)
+		}
+	})
+	if len(tests) == 0 || lphi == nil {
+		c.Fail(rule, fn.Name()+":substituted-prefix", p.pos(fn.Pos()), "the decoded rune is never compared with utf8.RuneError: a substituted prefix is taken for a character")
+		return
+	}
+	isConsume := func(in ssa.Instruction) bool {
+		if cc := callCommon(in); cc != nil {
+			n := calleeName(cc)
+			if n == "(*bytes.Buffer).ReadByte" || n == "(*bytes.Buffer).Next" || n == "(*bytes.Buffer).ReadBytes" {
+				return true
+			}
+		}
+		if sl, ok := in.(*ssa.Slice); ok && sl.Low != nil {
+			if _, isParam := sliceRoot(sl.X).(*ssa.Parameter); isParam {
+				return true
+			}
+		}
+		return false
+	}
+	// edges that establish "the longest sequence length has been reached"
+	longEnough := func(from *ssa.BasicBlock, to *ssa.BasicBlock) bool {
+		if len(from.Instrs) == 0 {
+			return false
+		}
+		iff, ok := from.Instrs[len(from.Instrs)-1].(*ssa.If)
+		if !ok {
+			return false
+		}
+		bo, ok := iff.Cond.(*ssa.BinOp)
+		if !ok || bo.X != ssa.Value(lphi) {
+			return false
+		}
+		k, ok := constInt(bo.Y)
+		if !ok {
+			return false
+		}
+		onTrue := from.Succs[0] == to
+		switch bo.Op {
+		case token.LSS: // l < K false  =>  l >= K
+			return !onTrue && k >= 4
+		case token.LEQ:
+			return !onTrue && k >= 3
+		case token.GEQ:
+			return onTrue && k >= 4
+		case token.GTR:
+			return onTrue && k >= 3
+		}
+		return false
+	}
+	bad := ""
+	for _, bo := range tests {
+		for _, r := range referrers(bo) {
+			iff, ok := r.(*ssa.If)
+			if !ok {
+				continue
+			}
+			errSucc := iff.Block().Succs[0]
+			if bo.Op == token.NEQ {
+				errSucc = iff.Block().Succs[1]
+			}
+			seen := map[*ssa.BasicBlock]bool{}
+			type item struct{ b *ssa.BasicBlock }
+			stack := []*ssa.BasicBlock{errSucc}
+			for len(stack) > 0 {
+				b := stack[len(stack)-1]
+				stack = stack[:len(stack)-1]
+				if seen[b] || b == lphi.Block() {
+					continue // back at the loop header: the next prefix is tried
+				}
+				seen[b] = true
+				stop := false
+				for _, in := range b.Instrs {
+					if cc := callCommon(in); cc != nil && cc.IsInvoke() && cc.Method.Name() == "Transform" {
+						stop = true // decoded afresh
+						break
+					}
+					if isConsume(in) {
+						bad += fmt.Sprintf("after the substituted decode tested at %s input is consumed at %s without a longer prefix having been tried; ", p.pos(bo.Pos()), p.pos(in.Pos()))
+						stop = true
+						break
+					}
+				}
+				if stop {
+					continue
+				}
+				for _, sc := range b.Succs {
+					if !longEnough(b, sc) {
+						stack = append(stack, sc)
+					}
+				}
+			}
+		}
+	}
+	c.Check(bad == "", rule, fn.Name()+":substituted-prefix", p.pos(fn.Pos()), fmt.Sprintf("%d comparison(s) with utf8.RuneError; on the substituted side input is consumed only once prefixes up to 4 bytes have been tried %s", len(tests), bad))
 }
